@@ -84,12 +84,24 @@ type core struct {
 	createRelease  chan struct{}
 	vers2          map[string]bool // versions written by calls of phase 2 (not the tenure under study)
 	hardOdd        []string        // things no delay can cause
+
+	// scenario (viii): BEFORE the tenure under study the same Locker object held an earlier tenure ("prehistory",
+	// passed through unrecorded) that was unlocked while its preParkK-th renewal call was in flight (applied by the
+	// store, the answer held back by the gate until preRelease is closed). vers0 = the versions that tenure wrote.
+	pre        bool
+	preCAS     int
+	preParkK   int
+	preParked  chan struct{}
+	preRelease chan struct{}
+	vers0      map[string]bool
+	staleCalls int // calls presenting a version of the earlier tenure while the tenure under study runs (all must fail)
 }
 
 func newCore(inner kvs.Storage, ttl time.Duration) *core {
 	return &core{inner: inner, base: time.Now(), ttl: ttl, vers: map[string]int64{}, faults: map[int]string{},
 		parked: make(chan struct{}, 1), release: make(chan struct{}),
-		createParked: make(chan struct{}, 1), createRelease: make(chan struct{}), vers2: map[string]bool{}}
+		createParked: make(chan struct{}, 1), createRelease: make(chan struct{}), vers2: map[string]bool{},
+		preParked: make(chan struct{}, 1), preRelease: make(chan struct{}), vers0: map[string]bool{}}
 }
 
 func (c *core) ts() int64 { return int64(time.Since(c.base)) }
@@ -161,6 +173,14 @@ func (v holderView) Create(ctx context.Context, r kvs.Record) (string, error) {
 	if c.phase2 {
 		return v.create2(ctx, r)
 	}
+	if c.pre {
+		defer c.mu.Unlock()
+		ver, err := c.inner.Create(ctx, r)
+		if err == nil {
+			c.vers0[ver] = true
+		}
+		return ver, err
+	}
 	if r.Key != c.key && c.key != "" {
 		c.oddities = append(c.oddities, "holder Create on another key "+r.Key)
 	}
@@ -206,6 +226,33 @@ func (v holderView) CasByVersion(ctx context.Context, r kvs.Record) (kvs.Record,
 		c.blackholed++
 		c.mu.Unlock()
 		return kvs.Record{}, errInjected
+	}
+	if c.pre {
+		// a renewal of the earlier tenure: passed through; the preParkK-th is applied and its answer held back
+		c.preCAS++
+		k := c.preCAS
+		res, err := c.inner.CasByVersion(ctx, r)
+		if err == nil {
+			c.vers0[res.Version] = true
+		}
+		c.mu.Unlock()
+		if k == c.preParkK {
+			c.preParked <- struct{}{}
+			<-c.preRelease
+		}
+		return res, err
+	}
+	if c.vers0[r.Version] {
+		// the tenure under study runs, and this call presents a version of the EARLIER tenure of the same Locker:
+		// at most the one attempt that was armed when that tenure was unlocked; it must change nothing
+		c.staleCalls++
+		res, err := c.inner.CasByVersion(ctx, r)
+		if err == nil {
+			c.vers0[res.Version] = true
+			c.hardOdd = append(c.hardOdd, "a renewal call carrying a version of an earlier, unlocked tenure of the same Locker was applied by the storage (it must change nothing)")
+		}
+		c.mu.Unlock()
+		return res, err
 	}
 	if c.phase2 && c.vers2[r.Version] {
 		// a renewal of the second tenure on the holder's Locker (only when the harness was delayed: noise)
@@ -292,6 +339,9 @@ func (v holderView) Delete(ctx context.Context, key string) error {
 	defer c.mu.Unlock()
 	if c.dead || c.stopped {
 		return errInjected
+	}
+	if c.pre {
+		return c.inner.Delete(ctx, key)
 	}
 	if c.phase2 {
 		// Unlock of the second tenure on the holder's Locker
@@ -475,6 +525,17 @@ func (c *core) stop() {
 	case <-c.createRelease:
 	default:
 		close(c.createRelease)
+	}
+	c.letGoPre()
+}
+
+func (c *core) letGoPre() {
+	c.mu.Lock()
+	defer c.mu.Unlock()
+	select {
+	case <-c.preRelease:
+	default:
+		close(c.preRelease)
 	}
 }
 
